@@ -11,29 +11,7 @@
 #include "rep.h"
 int* gp_val; long long* gp_elem;
 int g_k, g_p, v_g, v_exp, g_q, g_r, g_size, g_bsize; long long v_cell, v_cellb;
-int __CPROVER_uninterpreted_mul(int, int);
-int __CPROVER_uninterpreted_add(int, int);
-int __CPROVER_uninterpreted_sub(int, int);
-#define MUL(a, b) __CPROVER_uninterpreted_mul((a), (b))
-#define ADD(a, b) __CPROVER_uninterpreted_add((a), (b))
-#define SUB(a, b) __CPROVER_uninterpreted_sub((a), (b))
-#define LO32(x)  ((int)(unsigned int)((unsigned long long)(x) & 0xffffffffULL))
-#define HI32(x)  ((int)(unsigned int)((unsigned long long)(x) >> 32))
-#define VAL(e, k) LO32((e)[k])
-#define IDX(e, k) HI32((e)[k])
-/* first-match lookup over at most 8 cells (CAP <= 8); cells >= n are never read */
-#define SD1(e, n, g, k, rest) ((((k) < (n)) && IDX(e, k) == (g)) ? VAL(e, k) : (rest))
-#define SDENSE(e, n, g) SD1(e, n, g, 0, SD1(e, n, g, 1, SD1(e, n, g, 2, SD1(e, n, g, 3, SD1(e, n, g, 4, SD1(e, n, g, 5, SD1(e, n, g, 6, SD1(e, n, g, 7, 0))))))))
-#define SI1(e, n, g, k) (((k) < (n)) && IDX(e, k) == (g))
-#define SIN(e, n, g) (SI1(e, n, g, 0) || SI1(e, n, g, 1) || SI1(e, n, g, 2) || SI1(e, n, g, 3) || SI1(e, n, g, 4) || SI1(e, n, g, 5) || SI1(e, n, g, 6) || SI1(e, n, g, 7))
-#define NZ1(e, n, k) ((((k) < (n)) && VAL(e, k) != 0) ? 1 : 0)
-#define SNNZ(e, n) (NZ1(e, n, 0) + NZ1(e, n, 1) + NZ1(e, n, 2) + NZ1(e, n, 3) + NZ1(e, n, 4) + NZ1(e, n, 5) + NZ1(e, n, 6) + NZ1(e, n, 7))
-#define DZ1(w, n, k) ((((k) < (n)) && (w)[k] != 0) ? 1 : 0)
-#define DNNZ(w, n) (DZ1(w, n, 0) + DZ1(w, n, 1) + DZ1(w, n, 2) + DZ1(w, n, 3) + DZ1(w, n, 4) + DZ1(w, n, 5) + DZ1(w, n, 6) + DZ1(w, n, 7))
-#if CAP > 8
-#error "vecalg: CAP <= 8"
-#endif
-#define SVWF(e, mx, used) (1 <= (mx) && (mx) <= CAP && __CPROVER_is_fresh(e, (mx) * sizeof(long long)) && 0 <= (used) && (used) <= (mx))
+#include "sparse_alg_c.h"
 
 #ifdef VB_KIND
 /* VectorBase<R> op= SVectorBase<R>.  Preconditions: stored indices are < dim() (asserted by the real code) and pairwise
@@ -64,7 +42,7 @@ int __CPROVER_uninterpreted_sub(int, int);
  * ps[k] = ps[k+1] + val[idx[k]] * value[k]; result ps[0] */
 #define P_PS(k) (!((k) < *memused) || ps[k] == ADD(ps[(k) + 1], MUL(val[IDX(elem, k)], VAL(elem, k))))
 int w_vb(int* val, int dim, long long* elem, int memsize, int* memused, int xx, const int* ps)
-__CPROVER_requires(1 <= dim && dim <= CAP && __CPROVER_is_fresh(val, dim * sizeof(int)))
+__CPROVER_requires(DVWF(val, dim))
 __CPROVER_requires(__CPROVER_is_fresh(memused, sizeof(int)) && SVWF(elem, memsize, *memused) && g_size == *memused)
 __CPROVER_requires(REP_ALL(P_IDXOK))
 __CPROVER_requires(__CPROVER_is_fresh(ps, (CAP + 1) * sizeof(int)) && ps[*memused] == 0 && REP_ALL(P_PS))
@@ -74,7 +52,7 @@ __CPROVER_ensures(__CPROVER_return_value == ps[0] && *memused == g_size && val[g
 ;
 #else
 int w_vb(int* val, int dim, long long* elem, int memsize, int* memused, int xx, const int* ps)
-__CPROVER_requires(1 <= dim && dim <= CAP && __CPROVER_is_fresh(val, dim * sizeof(int)))
+__CPROVER_requires(DVWF(val, dim))
 __CPROVER_requires(__CPROVER_is_fresh(memused, sizeof(int)) && SVWF(elem, memsize, *memused) && g_size == *memused)
 __CPROVER_requires(REP_ALL(P_IDXOK))
 __CPROVER_requires(0 <= g_k && g_k < dim && v_g == val[g_k] && -1 <= g_p && g_p < *memused && REP_ALL(P_OCC))
@@ -103,7 +81,7 @@ void h_vb(void)
 void w_sv(long long* a, int amax, int* aused, long long* b, int bmax, int* bused, int* w, int dim, int xx)
 __CPROVER_requires(__CPROVER_is_fresh(aused, sizeof(int)) && SVWF(a, amax, *aused) && g_size == *aused)
 __CPROVER_requires(__CPROVER_is_fresh(bused, sizeof(int)) && SVWF(b, bmax, *bused) && g_bsize == *bused)
-__CPROVER_requires(1 <= dim && dim <= CAP && __CPROVER_is_fresh(w, dim * sizeof(int)))
+__CPROVER_requires(DVWF(w, dim))
 #if SV_OP == 1
 /* a *= x: every stored value is multiplied by x, indices and size stay */
 __CPROVER_requires(0 <= g_q && g_q < *aused && v_cell == a[g_q])
